@@ -165,6 +165,26 @@ def check(tier, seed):
         viol += 1
         rep.violation("c15_failed_init_shape", "# the failing-initialisation history did not run as expected\n# %r\n# %r\n%s" % (ex, fx, r["err"][-400:]), False)
     h.cleanup(r); h.cleanup(fresh)
+    # (5) many entry points: every top-level function of a program with dozens of them is found by name (the entry table grows
+    # through several capacities; names chosen so that many collide), prepared and executed on one machine, in a seeded order
+    names = ["e%d" % i for i in range(40)] + ["on_key", "on_tick", "on_exit", "main2", "a", "b", "ab", "ba", "entry_with_a_rather_long_name_%d" % rng.range(0, 9)] + \
+            ["q" + "".join("az" if (i >> k) & 1 else "bY" for k in range(4)) for i in range(12)]
+    msrc = "".join("func %s(x : int) -> int { x + %d }\n" % (nm, 10 * i) for i, nm in enumerate(names)) + "func main() -> int { 0 }\n"
+    order = list(range(len(names))); rng.shuffle(order)
+    order = order[:60]
+    r = h.run(src=msrc, trace=False, calls=";".join("%s:%d" % (names[i], i % 7) for i in order))
+    ex = [l for l in r["lines"] if l.startswith("exec ")]
+    pr = [l for l in r["lines"] if l.startswith("prepare ")]
+    stats["entry_points_called"] = len(ex)
+    want = ["I%d" % (i % 7 + 10 * i) for i in order]
+    got = [(re.search(r"result=(\S+)", l) or [None, "?"])[1] for l in ex]
+    if (got != want or any(not l.startswith("prepare 0") for l in pr)) and viol < 3:
+        viol += 1
+        badk = next((k for k in range(len(order)) if k >= len(got) or got[k] != want[k]), None)
+        rep.violation("c15_entry_lookup", "# an entry point of a program with %d top-level functions was not found / ran another function: call %s -> %s (expected %s)\n# prepare lines: %s\n# stderr: %s\n%s"
+                      % (len(names) + 1, names[order[badk]] if badk is not None else "?", got[badk] if badk is not None and badk < len(got) else "missing", want[badk] if badk is not None else "?",
+                         [l for l in pr if not l.startswith("prepare 0")][:3], r["err"][-300:], msrc), True)
+    h.cleanup(r)
     h.close()
     stats["diagnostic_owner_cases"] = nown
     rep.cov.update(trusted_base=["Lean 4.33 kernel", "axioms: propext, Classical.choice, Quot.sound", "h_vm.c (call lists, pre-compiles) + comparator", "gcc/ASan"],
